@@ -20,6 +20,9 @@ def real_optimizer_pass(ctx, n_opt: int):
         mc = r.choice([1, 2, 5, 10])
         fe = r.choice([None, 0.01, 0.5, 0.9])
         jobs.append({"opt": nm, "cfg": {"max_cycles": mc, "fitness_error": fe}, "task": search.cont_task(obj=r.choice(["sphere", "rastrigin", "step"]), seed=r.randint(0, 10**6))})
+        # the same rule on a REUSED instance (the per-run bookkeeping is reset by optimize() itself, whatever hooks the optimizer overrides)
+        jobs.append({"opt": nm, "cfg": {"max_cycles": mc, "fitness_error": None}, "sequence": [{"task": search.cont_task(obj="rastrigin", seed=r.randint(0, 10**6))}],
+                     "task": search.cont_task(obj="sphere", seed=r.randint(0, 10**6))})
     obs = search.run_jobs(jobs)
     n_ok = 0
     for o in obs:
